@@ -816,7 +816,7 @@ theorem all_sound (hx : ExtOk ext) (hp : ProgOk Φ Gg prog) (n : Nat) : AllSound
                   have hls := loop_scope_ok Gg hok3 lv .num hlv (.num ops.zero) (.num _)
                   have hf := ih.execF ρ lv .num (.step a b c) body _ Gs S3 hlv rfl hbody hls
                   exact for_finish Gg ρ _ ((g1.trans g2).trans g3) _ hf
-        | forArr _ lv e s body hlv he hbody =>
+        | forArr _ lv lvTy e s body hlv hlt he hbody =>
           simp only
           have hp := hok.push Gg
           have e1 : lookupG ([] :: Gs) Gg = lookupG Gs Gg := lookupG_push Gs Gg
@@ -834,10 +834,11 @@ theorem all_sound (hx : ExtOk ext) (hp : ProgOk Φ Gg prog) (n : Nat) : AllSound
               have hf := ih.execF ρ none s (.arr a 0) body s1 Gs S1 hlv ha hbody hok1
               exact for_finish Gg ρ _ g1 _ hf
             | some nm =>
-              obtain ⟨S2, g2, hk2, hz, zl, zg⟩ := zeroVal_typed ops hok1.heap s hs
-              have hok2 : StOk S2 ([] :: Gs) Gg (zeroVal ops s1 s).2 := hok1.mono g2 hk2 zl zg
-              have hls := loop_scope_ok Gg hok2 (some nm) s hlv _ hz
-              have hf := ih.execF ρ (some nm) s (.arr a 0) body _ Gs S2 hlv (g2.get ha) hbody hls
+              have := hlt (by simp); subst this
+              obtain ⟨S2, g2, hk2, hz, zl, zg⟩ := zeroVal_typed ops hok1.heap lvTy hs
+              have hok2 : StOk S2 ([] :: Gs) Gg (zeroVal ops s1 lvTy).2 := hok1.mono g2 hk2 zl zg
+              have hls := loop_scope_ok Gg hok2 (some nm) lvTy hlv _ hz
+              have hf := ih.execF ρ (some nm) lvTy (.arr a 0) body _ Gs S2 hlv (g2.get ha) hbody hls
               exact for_finish Gg ρ _ (g1.trans g2) _ hf
         | forStr _ lv lvTy e body hlv he hbody =>
           simp only
